@@ -3,7 +3,7 @@
    json.loads (json.dumps v) = v for such values is the external-library hypothesis validated by
    suite W-json / R-json (the implementation's file is parsed and compared with [json_write]). *)
 From Coq Require Import List Bool String ZArith.
-From FM Require Import Base.Result Model.FM Model.PFM Format.Json Proofs.JsonFacts.
+From FM Require Import Base.Result Model.FM Model.PFM Format.Json Proofs.JsonFacts Proofs.JsonVariant.
 Import ListNotations.
 Local Open Scope list_scope.
 
@@ -30,3 +30,13 @@ Print Assumptions C05_cycles.
 Example C05_nonvacuous : json_ok ex_model = true /\ iter_cycle 3 ex_model = Ok ex_model.
 Proof. vm_compute. split; reflexivity. Qed.
 Print Assumptions C05_nonvacuous.
+
+(* objects are read by key, not by position (JsonVariant.v): the entries of any object with distinct keys may be
+   permuted, at any depth — except inside the two values the reader stores raw (a node's "abstract" and an attribute's
+   "value"; the unrestricted statement is refuted there: json_read_jperm_false_abstract / _value) *)
+Theorem C05_key_order : forall d d', jperm' d d' -> json_read d = json_read d'.
+Proof. exact json_read_perm. Qed.
+Print Assumptions C05_key_order.
+Example C05_key_order_nonvacuous : jperm' jx_doc jx_doc_perm /\ json_write jx_model = Ok jx_doc.
+Proof. exact (conj jx_perm_rel jx_doc_written). Qed.
+Print Assumptions C05_key_order_nonvacuous.
